@@ -32,7 +32,15 @@ reported histories (iter_lrs per optimiser, iter_losses, val_iter_losses, snapsh
 read through the public accessors and compared as numbers, entry by entry and EXACTLY (learning rates also
 after continuing); (b) harness/c05_tie.py re-reads the source of reconnect_optimizer_to_parameters / to / save /
 the iteration loop / _record_iter / reset_recon / _store_current_iter_snapshot on every run and the facts the
-model assumes about them are re-proved (coq/gen_proofs/C05_Gen*.v)."""
+model assumes about them are re-proved (coq/gen_proofs/C05_Gen*.v).
+
+Round 5: CHECKPOINT TARGETS WITH A HISTORY.  case["prior"] = {"kind": <one of c05_toy.PRIORS>, "form": "str" | "Path"}:
+every save of the case (mode="o", zip and directory stores, with or without the raw data) goes onto a target that
+already holds an earlier checkpoint of a DIFFERENT reconstruction state (other set of optimised models, more
+iterations / snapshots, other scheduler, other object type / slice count / probe mode count, a validation history,
+written without the raw data, never iterated), written by the library's own save(); later saves of the same case land
+on the run's own earlier checkpoint.  The oracle is unchanged: the reloaded object reports exactly what was saved
+(which learning-rate histories exist included) and continues like the uninterrupted run."""
 from __future__ import annotations
 
 import json
@@ -72,6 +80,7 @@ LIVE_OP = {"zip": "OpSaveContinue", "dir": "OpSaveContinue", "zip+to": "OpSaveCo
            "clone": None, "clone_fallback": "OpSaveContinue", "to": "OpTo", "meta": "OpSaveContinue",
            "meta_dir": "OpSaveContinue", "meta+to": "OpSaveContinue"}
 META = ("meta", "meta_dir", "meta+to")
+SAVING = ("zip", "dir", "zip+to") + META       # interruptions whose checkpoint target the caller chooses
 INT_FORMS = ("int", "np.int64", "np.int32")
 
 
@@ -161,6 +170,15 @@ def corpus_cases():
              n=4, k=2, via="clone_fallback>zip"),
         dict(cfg=base_cfg(opt="adamw", sched="cyclic", num_form={"object": "np.float32", "probe": "np.float64"}),
              n=4, k=3, via="zip", more=[[1, "clone"]]),
+        # ---- round 5: the save goes onto a target that holds an earlier checkpoint of another state ----
+        dict(cfg=base_cfg(optimise=["object"], opt="adam", sched="none"), n=4, k=2, via="dir",
+             prior={"kind": "all_models_long", "form": "str"}),
+        dict(cfg=base_cfg(opt="adamw", sched="exp", snapshots=True), n=4, k=1, via="zip",
+             prior={"kind": "two_slices", "form": "Path"}),
+        dict(cfg=base_cfg(optimise=["object", "probe"], opt="sgd_momentum", sched="plateau", obj_type="pure_phase"),
+             n=4, k=2, via="meta_dir>dir", prior={"kind": "dataless", "form": "Path"}),
+        dict(cfg=base_cfg(optimise=["probe"], opt="adam", sched="cyclic", num_probes=2, snapshots=True), n=3, k=1,
+             via="dir", more=[[1, "dir"]], prior={"kind": "probe_only_potential", "form": "str"}),
     ]
     from ..common import VERIF
     p = VERIF / "corpus" / "C05" / "corpus.json"
@@ -194,6 +212,14 @@ def gen_cases(ctx: Ctx):
     forms = cyc(["float", "float", "float", "float", "int", "int", "np.int64", "np.int32", "np.float32",
                  "np.float64", "np.float32"])
     r4_shift = r.randrange(0, 11)
+    # round 5: the earlier checkpoint the save lands on (7 kinds x 2 path forms; among the cases with a saving
+    # interruption every second one gets a history)
+    from ..c05_toy import PRIORS
+    priors = cyc(sorted(PRIORS))
+    if ctx.quick:
+        priors = priors[:4]     # a seeded subset per quick run (each pooled earlier checkpoint costs a save); the corpus
+                                # cases use four kinds on every run, the thorough tier all seven
+    r5_shift, n_saving = r.randrange(0, 14), 0
     for i in range(n_gen):
         n = r.choice([2, 3, 4, 5] if ctx.quick else [1, 2, 3, 4, 5, 6, 8])
         k = r.choice([0, n, r.randint(0, n), r.randint(1, max(1, n - 1)), r.randint(1, max(1, n - 1))])
@@ -240,6 +266,11 @@ def gen_cases(ctx: Ctx):
             case["reset_last"] = True
         if any(a in META for a in atoms_of(case)):
             cfg.pop("rich_constraints", None)
+        if any(a in SAVING for a in atoms_of(case)):
+            n_saving += 1
+            j5 = n_saving + r5_shift
+            if j5 % 2 == 0:
+                case["prior"] = {"kind": priors[(j5 // 2) % len(priors)], "form": "Path" if (j5 // 2) % 3 == 1 else "str"}
         cases.append(case)
     return cases
 
@@ -294,7 +325,9 @@ def run_case(case, workdir):
     segs, rest = segments(case)
     reset_last = bool(case.get("reset_last"))
     tag = str(os.getpid())
-    out = {}
+    prior = case.get("prior")
+    T.clean_targets(workdir, tag)
+    out = {"prior_rel": []}
     # the uninterrupted run, with the same calls
     ref = T.build(cfg)
     for j, (kj, _) in enumerate(segs):
@@ -340,7 +373,9 @@ def run_case(case, workdir):
             before = T.numeric_obs(cur)
             if atom != "to" and T.int_then_frac(cur):
                 out["int_then_frac_at_save"] = True      # coverage statistic only
-            new = T.interrupt(cur, atom, workdir, tag=tag, cfg=cfg)
+            if prior and atom in SAVING and not out["prior_rel"]:
+                out["prior_rel"] = T.prior_relation(prior, cfg, before["num_iters"])
+            new = T.interrupt(cur, atom, workdir, tag=tag, cfg=cfg, prior=prior)
             if cur is pt and new is not pt:
                 ops_live = list(ops_cur) + ([LIVE_OP[atom]] if LIVE_OP[atom] else [])
                 snaps_live = list(snaps_cur)
@@ -351,6 +386,7 @@ def run_case(case, workdir):
             snap(snaps_cur, ops_cur, cur, "after %s" % atom)
             if cur is not pt and not shares:
                 shares = T.shares_cells(cur, pt)
+    T.clean_targets(workdir, tag)
     out["s_q"] = T.structure(cur)
     out["s_live"] = T.structure(pt)
     out["reported"] = reports[0][1]
@@ -487,6 +523,8 @@ def describe(case):
         extra += " more=%s" % case["more"]
     if case.get("reset_last"):
         extra += " reset_last"
+    if case.get("prior"):
+        extra += " target_holds_earlier_checkpoint=%s(%s)" % (case["prior"]["kind"], case["prior"].get("form", "str"))
     if c.get("num_form"):
         extra += " lr=%s forms=%s" % ({k_: c["lr"][k_] for k_ in c["optimise"]}, {k_: c["num_form"].get(k_, "float") for k_ in c["optimise"]})
     return "opt=%s sched=%s obj=%s probes=%d optimise=%s tilt=%s slices=%d scan=%s n=%d k=%d via=%s%s" % (
@@ -530,7 +568,13 @@ def run(ctx: Ctx):
         "model in {float, int, np.int64, np.int32, np.float32, np.float64} (learning rate, momentum, gamma / factor / "
         "threshold / min_lr / start_factor / end_factor / base_lr / max_lr; an integer form is applied to integer values: "
         "a learning rate of 1 with the sgd family - exp and plateau schedulers then make it fractional -, end_factor = 1 "
-        "otherwise); 20 fixed corpus cases first, then a seeded stream cycling "
+        "otherwise); round 5: CHECKPOINT TARGETS WITH A HISTORY - in about 30% of the cases (every second case that has a "
+        "saving interruption, plus 4 corpus cases) every save(mode='o') of the case goes onto a target that already holds an "
+        "earlier checkpoint of a DIFFERENT reconstruction state written by the library's save() with the same store (7 kinds: "
+        "all three models optimised + 7 iterations + a snapshot per iteration; two slices + two probe modes + learned tilt; "
+        "probe only + potential object; object + dataset, 2 iterations; written WITHOUT the raw data; object only + "
+        "validation history; never iterated), zip and directory stores, target given as str or pathlib.Path, later saves of "
+        "the same case land on the run's own earlier checkpoint; 24 fixed corpus cases first, then a seeded stream cycling "
         "through every value of every dimension.  Distinct by (configuration, n, k, via, more); non-trivial when "
         "0 < k < n and at least one optimiser keeps per-parameter state or a scheduler is attached.")
     ctx.assumptions += [
@@ -540,6 +584,8 @@ def run(ctx: Ctx):
         "torch.save/torch.load of a module preserve tensor values, optimizer.state and the sharing inside one "
         "pickle; copy.deepcopy preserves sharing inside one object graph (oracle contracts, exercised by every case)",
         "torch CPU kernels are deterministic functions of their inputs (single thread enforced by the harness)",
+        "the store (zarr tree / zip archive) is not modelled: for a save onto a target that holds an earlier checkpoint the "
+        "oracle on the implementation decides (the model's save+from_file is the identity on the view whatever the target held)",
         "full-batch updates only: the mini-batch order is re-seeded on load and is outside the claim; so is a RANDOM "
         "validation split (drawn from the same generator at every reconstruct() call); the deterministic grid split "
         "is inside and exercised with the sgd family only (with Adam, pixels seen only by held-out positions get "
@@ -610,6 +656,14 @@ def run(ctx: Ctx):
             ctx.dist("hyperparameter_form=%s" % f_)
         if any(isinstance(cfg["lr"][k_], int) for k_ in cfg["optimise"]):
             ctx.dist("integer_lr")
+        if case.get("prior"):
+            ctx.dist("target_with_history")
+            ctx.dist("target_with_history/kind=%s" % case["prior"]["kind"])
+            ctx.dist("target_with_history/path_form=%s" % case["prior"].get("form", "str"))
+            for st_ in sorted({"dir" if a_ in ("dir", "meta_dir") else "zip" for a_ in atoms_of(case) if a_ in SAVING}):
+                ctx.dist("target_with_history/store=%s" % st_)
+            if sum(a_ in SAVING for a_ in atoms_of(case)) > 1:
+                ctx.dist("target_with_history/later_save_lands_on_own_earlier_checkpoint")
         try:
             res = run_case(case, workdir)
         except Exception as e:  # the implementation crashed on a valid history
@@ -623,6 +677,8 @@ def run(ctx: Ctx):
         res["bad"] = bad
         if res.get("int_then_frac_at_save"):
             ctx.dist("saved_lr_history_starts_integer_turns_fractional")
+        for rel_ in res["prior_rel"]:
+            ctx.dist("target_with_history/earlier_has_%s" % rel_)
         for bkey, what in bad:
             ctx.violation(bkey, what + "  [" + describe(case) + "]", {"kind": "case", "case": case})
         if not bad:
